@@ -886,6 +886,8 @@ def run_cases(ctx, cases):
     out = ctx.coqc_many([f for f, _ in files], jobs=16, timeout=900)
     for f, idxs in files:
         rc, txt = out[f]
+        if rc != 0 and not txt.strip():  # killed without a message (memory pressure on a loaded host): once more, alone
+            rc, txt = ctx.coqc(f, timeout=900)
         vals = parse_coq_eval(txt)
         if rc != 0 or not vals:
             mism.append((None, f.name, None, None, "coqc failed: " + txt[-800:]))
